@@ -19,6 +19,59 @@ pub open spec fn unop_arm<'b>(env: Env, st0: Seq<CelStackValue<'b>>, st: Seq<Cel
     &&& val_ok(env, st0.last(), Ok(v))
     &&& st == st0.drop_last().push(CelStackValue::Value(op1(op, v)))
 }
+/// the k topmost entries were popped one by one, each resolved to a value: v[j] is the value of the j-th entry from the top
+pub open spec fn popped<'b>(env: Env, st0: Seq<CelStackValue<'b>>, v: Seq<CelValue>) -> bool {
+    &&& v.len() <= st0.len()
+    &&& forall|j: int| 0 <= j < v.len() ==> val_ok(env, #[trigger] st0[st0.len() - 1 - j], Ok(v[j]))
+}
+/// MKLIST n builds a list of the n topmost values in the order they were pushed
+pub open spec fn mklist_arm<'b>(env: Env, st0: Seq<CelStackValue<'b>>, st: Seq<CelStackValue<'b>>, size: u32, l: Seq<CelValue>) -> bool {
+    &&& size <= st0.len()
+    &&& l.len() == size
+    &&& forall|j: int| 0 <= j < size ==> val_ok(env, #[trigger] st0[st0.len() - size + j], Ok(l[j]))
+    &&& st.len() == st0.len() - size + 1
+    &&& st.last() is Value && st.last()->Value_0 is List && st.last()->Value_0->List_0@ == l
+    &&& forall|i: int| 0 <= i < st0.len() - size ==> st[i] == st0[i]
+}
+/// MKDICT n: the 2n topmost entries are n (value, key) pairs; keys[t] / vals[t] are the t-th pair FROM THE TOP, i.e. t = 0 is
+/// the pair written last in the source.  The map holds exactly those keys, and for a repeated key the last entry written wins.
+pub open spec fn dict_state(m: Map<String, CelValue>, keys: Seq<String>, vals: Seq<CelValue>) -> bool {
+    &&& keys.len() == vals.len()
+    &&& forall|t: int| 0 <= t < keys.len() ==> m.contains_key(#[trigger] keys[t])
+    &&& forall|k: String| #[trigger] m.contains_key(k) ==> exists|t: int| 0 <= t < keys.len() && keys[t] == k
+    &&& forall|t: int| 0 <= t < keys.len() && (forall|t2: int| 0 <= t2 < t ==> keys[t2] != keys[t]) ==> m[#[trigger] keys[t]] == vals[t]
+}
+pub open spec fn dict_popped<'b>(env: Env, st0: Seq<CelStackValue<'b>>, keys: Seq<String>, vals: Seq<CelValue>) -> bool {
+    &&& keys.len() == vals.len() && 2 * keys.len() <= st0.len()
+    &&& forall|t: int| 0 <= t < keys.len() ==> val_ok(env, #[trigger] st0[st0.len() - 1 - 2 * t], Ok(CelValue::String(keys[t])))
+    &&& forall|t: int| 0 <= t < keys.len() ==> val_ok(env, #[trigger] st0[st0.len() - 2 - 2 * t], Ok(vals[t]))
+}
+pub open spec fn mkdict_arm<'b>(env: Env, st0: Seq<CelStackValue<'b>>, st: Seq<CelStackValue<'b>>, size: u32, keys: Seq<String>, vals: Seq<CelValue>) -> bool {
+    &&& keys.len() == size && dict_popped(env, st0, keys, vals)
+    &&& st.len() == st0.len() - 2 * size + 1
+    &&& st.last() is Value && st.last()->Value_0 is Map && dict_state(st.last()->Value_0->Map_0@, keys, vals)
+    &&& forall|i: int| 0 <= i < st0.len() - 2 * size ==> st[i] == st0[i]
+}
+/// the concatenation of string values, in order; None if one of them is not a string
+pub open spec fn concat_strings(vals: Seq<CelValue>, upto: int) -> Option<Seq<char>>
+    decreases upto
+{
+    if upto <= 0 { Some(Seq::empty()) } else {
+        match (concat_strings(vals, upto - 1), vals[upto - 1]) {
+            (Some(p), CelValue::String(s)) => Some(p + s@),
+            _ => None,
+        }
+    }
+}
+/// FMT n concatenates the n topmost values (strings) in the order they were pushed
+pub open spec fn fmt_arm<'b>(env: Env, st0: Seq<CelStackValue<'b>>, st: Seq<CelStackValue<'b>>, n: u32, segs: Seq<CelValue>) -> bool {
+    &&& n <= st0.len() && segs.len() == n
+    &&& popped(env, st0, segs)
+    &&& concat_strings(segs.reverse(), n as int) is Some
+    &&& st.len() == st0.len() - n + 1
+    &&& st.last() is Value && st.last()->Value_0 is String && st.last()->Value_0->String_0@ == concat_strings(segs.reverse(), n as int)->Some_0
+    &&& forall|i: int| 0 <= i < st0.len() - n ==> st[i] == st0[i]
+}
 /// TEST maps a value to its truthiness and keeps a failure
 pub open spec fn test_arm<'b>(env: Env, st0: Seq<CelStackValue<'b>>, st: Seq<CelStackValue<'b>>, v: CelValue) -> bool {
     &&& st0.len() >= 1
@@ -46,6 +99,8 @@ GROUPS = {
     2: ['ByteCode::Mul', 'ByteCode::Div', 'ByteCode::Mod', 'ByteCode::Lt'],
     3: ['ByteCode::Le', 'ByteCode::Eq', 'ByteCode::Ne', 'ByteCode::Ge'],
     4: ['ByteCode::Gt', 'ByteCode::In', 'ByteCode::Index'],
+    5: ['ByteCode::MkList(size)', 'ByteCode::FmtString(nsegments)'],
+    6: ['ByteCode::MkDict(size)'],
 }
 
 
@@ -56,6 +111,47 @@ def vm_contracts(group=0):
     d = _vm_contracts()
     a = d['run_raw']
     a.arm_end = {k: v for k, v in a.arm_end.items() if k in GROUPS[group]}
+    if group == 6:
+        a.loops[2] = dict(ghost='it2', invariant=[('stack_context', 'stack.ctx == self'),
+            ('pairs_popped_so_far', 'gkeys.len() == it2.index@ && dict_popped(self@, st0, gkeys, gvals)'),
+            ('rest_of_the_stack', 'stack.stack@ =~= st0.subrange(0, st0.len() - 2 * gkeys.len())'),
+            ('map_holds_the_last_written_entries', 'dict_state(map@, gkeys, gvals)')],
+            post='''proof {
+    let T = okeys.len() as int;
+    assert(gkeys == okeys.push(gk) && gvals == ovals.push(gv));
+    assert forall|t: int| 0 <= t < gkeys.len() implies map@.contains_key(#[trigger] gkeys[t]) by {
+        if t < T { assert(omap.contains_key(okeys[t])); }
+    }
+    assert forall|k: String| #[trigger] map@.contains_key(k) implies exists|t: int| 0 <= t < gkeys.len() && gkeys[t] == k by {
+        if omap.contains_key(k) { let t0 = choose|t: int| 0 <= t < okeys.len() && okeys[t] == k; assert(gkeys[t0] == k); } else { assert(k == gk); assert(gkeys[T] == k); }
+    }
+    assert forall|t: int| 0 <= t < gkeys.len() && (forall|t2: int| 0 <= t2 < t ==> gkeys[t2] != gkeys[t]) implies map@[#[trigger] gkeys[t]] == gvals[t] by {
+        if t < T {
+            assert(forall|t2: int| 0 <= t2 < t ==> okeys[t2] == gkeys[t2]);
+            assert(omap.contains_key(okeys[t]));
+            assert(omap[okeys[t]] == ovals[t]);
+        } else {
+            if omap.contains_key(gk) { let t0 = choose|t0: int| 0 <= t0 < okeys.len() && okeys[t0] == gk; assert(gkeys[t0] == gkeys[T]); assert(false); }
+        }
+    }
+}''')
+        a.after = {'let mut map = HashMap::new();': 'let ghost mut gkeys = Seq::<String>::empty(); let ghost mut gvals = Seq::<CelValue>::empty();',
+                   ('let value = stack.pop_val()?;', 0): '''let ghost okeys = gkeys; let ghost ovals = gvals; let ghost omap = map@; let ghost gk = key; let ghost gv = value;
+proof { gkeys = gkeys.push(key); gvals = gvals.push(value); }'''}
+        a.before = {'stack.push_val(map.into());': '''proof { }'''}
+    if group == 5:
+        inv = [('stack_context', 'stack.ctx == self')]
+        a.loops[1] = dict(ghost='it1', invariant=inv + [
+            ('popped_so_far', 'v@.len() == it1.index@ && popped(self@, st0, v@)'),
+            ('rest_of_the_stack', 'stack.stack@ =~= st0.subrange(0, st0.len() - v@.len())')])
+        a.loops[5] = dict(ghost='it5', invariant=inv + [
+            ('popped_so_far', 'segments@.len() == it5.index@ && popped(self@, st0, segments@)'),
+            ('rest_of_the_stack', 'stack.stack@ =~= st0.subrange(0, st0.len() - segments@.len())')])
+        a.loops[6] = dict(ghost='it6', invariant=inv + [
+            ('reverse_order', 'it6.seq() == segs0.reverse()'),
+            ('prefix_concatenated', 'concat_strings(segs0.reverse(), it6.index@ as int) == Some(working@)')])
+        a.after = {'let mut working = String::new();': 'let ghost segs0 = segments@;'}
+        a.before = {'v.reverse();': 'let ghost popped_v = v@;'}
     if group != 0:
         # the other functions are verified in group 0 only
         from .interp import stubbed
@@ -95,6 +191,17 @@ def _vm_contracts():
             'ByteCode::Pop': [('drops_the_top', 'st0.len() >= 1 && stack.stack@ == st0.drop_last()', ('C10', 'C05', 'C01'))],
             'ByteCode::Test': [('truthiness_keeping_failures', 'test_arm(self@, st0, stack.stack@, v)', ('C05', 'C01'))],
             'ByteCode::Dup': [('duplicates_the_resolved_top', 'st0.len() >= 1 && val_ok(self@, st0.last(), Ok(v)) && stack.stack@ == st0.drop_last().push(CelStackValue::Value(v)).push(CelStackValue::Value(v))', ('C05', 'C10', 'C01'))],
+            'ByteCode::MkList(size)': ['''proof {
+    let n = st0.len() as int; let sz = *size as int;
+    assert(popped_v.len() == sz);
+    assert forall|j: int| 0 <= j < sz implies val_ok(self@, #[trigger] st0[n - sz + j], Ok(popped_v.reverse()[j])) by {
+        let jj = sz - 1 - j;
+        assert(val_ok(self@, st0[n - 1 - jj], Ok(popped_v[jj])));
+    }
+}
+''', ('n_topmost_values_in_push_order', 'mklist_arm(self@, st0, stack.stack@, *size, popped_v.reverse())', ('C06', 'C01'))],
+            'ByteCode::MkDict(size)': [('last_entry_wins_for_a_repeated_key', 'mkdict_arm(self@, st0, stack.stack@, *size, gkeys, gvals)', ('C06', 'C09', 'C01'))],
+            'ByteCode::FmtString(nsegments)': [('concatenation_in_push_order', 'fmt_arm(self@, st0, stack.stack@, *nsegments, segs0)', ('C14', 'C01'))],
             'ByteCode::Jmp(dist)': [('relative_jump', 'pc == oldpc + 1 + *dist && stack.stack@ == st0', ('C10', 'C05', 'C01'))],
             'ByteCode::JmpCond { when, dist }': [('conditional_jump_rule', 'jmpcond_arm(self@, st0, stack.stack@, v1, *when, *dist, oldpc, pc)', ('C05', 'C10', 'C01'))],
                      },
